@@ -22,7 +22,7 @@ pub fn generate(stream: &str, seed: u64, n: usize, emit: &mut dyn FnMut(String))
 		"freeze-table" => ser::generate_freeze_table(emit),
 		"chain" => schema::generate_chain(emit),
 		"single" => ser::generate_single(seed, n, emit),
-		"schema" | "schema-bad" => schema::generate(stream, seed, n, emit),
+		"schema" | "schema-bad" | "names-table" => schema::generate(stream, seed, n, emit),
 		"graph" | "graph-wild" => schema::generate_graph(stream, seed, n, emit),
 		"reuse" => ser::generate_reuse(seed, n, emit),
 		"perm" => ser::generate_perm(seed, n, emit),
